@@ -252,6 +252,11 @@ func mutatorsFor(typ, chain string, fx *fixture) []mutator {
 				x := e.(*mtypes.SendToHubEvent)
 				x.Amount = bumpInt(x.Amount, 1, s)
 			}},
+			{"Amount.negated", func(e mtypes.ExternalEvent, s int) {
+				// the same digits with a minus sign (admissible only if validation lets negative amounts through)
+				x := e.(*mtypes.SendToHubEvent)
+				x.Amount = x.Amount.Neg()
+			}},
 			{"Sender", func(e mtypes.ExternalEvent, s int) {
 				x := e.(*mtypes.SendToHubEvent)
 				x.Sender = otherAddr(x.Sender, s)
@@ -302,6 +307,10 @@ func mutatorsFor(typ, chain string, fx *fixture) []mutator {
 			{"Fee", func(e mtypes.ExternalEvent, s int) {
 				x := e.(*mtypes.TransferToChainEvent)
 				x.Fee = bumpInt(x.Fee, 1000000, s)
+			}},
+			{"Amount.negated", func(e mtypes.ExternalEvent, s int) {
+				x := e.(*mtypes.TransferToChainEvent)
+				x.Amount = x.Amount.Neg()
 			}},
 			{"Sender", func(e mtypes.ExternalEvent, s int) {
 				x := e.(*mtypes.TransferToChainEvent)
